@@ -63,6 +63,11 @@ template<class T> inline bool is_nan_bits(T x) {
     return (u & emask) == emask && (u & mmask) != 0;
 }
 
+template<class T> inline bool is_snan_bits(T x) {
+    typedef typename FBits<T>::U U;
+    return is_nan_bits(x) && ((fbits(x) >> (FBits<T>::mant - 1)) & U(1)) == 0;
+}
+
 // classes
 template<class T>
 inline uint32_t fcls(T x) {
@@ -192,6 +197,38 @@ inline std::vector<T> flt_values(uint64_t nrandom, uint64_t seed) {
     for (uint64_t i = 0; i < nrandom; ++i) out.push_back(rand_flt<T>(r));
     return out;
 }
+
+// libm entry points reached through volatile function pointers: the compiler cannot replace the call by an inline
+// expansion (GCC expands round() with SSE4.1 into trunc(x + 0.49999997), which is only right in round-to-nearest).
+template<class T> struct Libm;
+template<> struct Libm<float> {
+    typedef float (*U1)(float);
+    static U1 volatile& ceil() { static U1 volatile p = &::ceilf; return p; }
+    static U1 volatile& floor() { static U1 volatile p = &::floorf; return p; }
+    static U1 volatile& trunc() { static U1 volatile p = &::truncf; return p; }
+    static U1 volatile& round() { static U1 volatile p = &::roundf; return p; }
+    static U1 volatile& nearbyint() { static U1 volatile p = &::nearbyintf; return p; }
+    static U1 volatile& rint() { static U1 volatile p = &::rintf; return p; }
+    static U1 volatile& logb() { static U1 volatile p = &::logbf; return p; }
+    static U1 volatile& sqrt() { static U1 volatile p = &::sqrtf; return p; }
+    static float frexp(float x, int* e) { static float (*volatile p)(float, int*) = &::frexpf; return p(x, e); }
+    static float ldexp(float x, int e) { static float (*volatile p)(float, int) = &::ldexpf; return p(x, e); }
+    static int ilogb(float x) { static int (*volatile p)(float) = &::ilogbf; return p(x); }
+};
+template<> struct Libm<double> {
+    typedef double (*U1)(double);
+    static U1 volatile& ceil() { static U1 volatile p = &::ceil; return p; }
+    static U1 volatile& floor() { static U1 volatile p = &::floor; return p; }
+    static U1 volatile& trunc() { static U1 volatile p = &::trunc; return p; }
+    static U1 volatile& round() { static U1 volatile p = &::round; return p; }
+    static U1 volatile& nearbyint() { static U1 volatile p = &::nearbyint; return p; }
+    static U1 volatile& rint() { static U1 volatile p = &::rint; return p; }
+    static U1 volatile& logb() { static U1 volatile p = &::logb; return p; }
+    static U1 volatile& sqrt() { static U1 volatile p = &::sqrt; return p; }
+    static double frexp(double x, int* e) { static double (*volatile p)(double, int*) = &::frexp; return p(x, e); }
+    static double ldexp(double x, int e) { static double (*volatile p)(double, int) = &::ldexp; return p(x, e); }
+    static int ilogb(double x) { static int (*volatile p)(double) = &::ilogb; return p(x); }
+};
 
 template<class T> struct FPair { T a, b; };
 
